@@ -129,6 +129,35 @@ theorem refines_err_bind {e : Err} {s : Res} {g : Value → Res} (he : e = .type
   | error k => exact ⟨k, rfl⟩
   | ok v => exact hg v
 
+/-! ### Record expressions: both sides evaluate the entries in key order -/
+
+theorem evaluateEach_eq_map (D : DateFns) (kes : List (String × Expr)) (env : Env) :
+    evaluateEach D kes env = kes.map (fun ke => (ke.1, evaluateWith D ke.2 env)) := by
+  induction kes with
+  | nil => rfl
+  | cons ke kes ih => obtain ⟨k, e⟩ := ke; simp only [evaluateEach, List.map_cons, ih]
+
+theorem seqKVs_map_evaluate (D : DateFns) (l : List (String × Expr)) (env : Env) :
+    seqKVs (l.map (fun ke => (ke.1, evaluateWith D ke.2 env))) = evaluateKVs D l env := by
+  induction l with
+  | nil => rfl
+  | cons ke l ih => obtain ⟨k, e⟩ := ke; simp only [List.map_cons, seqKVs, evaluateKVs, ih]
+
+/-- the specification of a record expression: the entries in key order (`canonKVs`), first error wins -/
+theorem evaluate_recordLit (D : DateFns) (kes : List (String × Expr)) (env : Env) :
+    evaluateWith D (.record kes) env = (evaluateKVs D (canonKVs kes) env).bind (fun kvs => .ok (mkRecord kvs)) := by
+  rw [evaluateWith, evaluateEach_eq_map, canonKVs_map (fun e => evaluateWith D e env), seqKVs_map_evaluate]
+  rfl
+
+theorem evalKVs_refines_of (D : DateFns) (env : Env) : ∀ (l : List (String × Expr)),
+    (∀ ke ∈ l, Refines (eval ke.2 env) (evaluateWith D ke.2 env)) → Refines (evalKVs l env) (evaluateKVs D l env)
+  | [], _ => .inl rfl
+  | (k, e) :: l, h => by
+    simp only [evalKVs, evaluateKVs]
+    apply refines_bind (h (k, e) (by simp))
+    intro v _
+    exact refines_bind (evalKVs_refines_of D env l (fun ke hke => h ke (by simp [hke]))) (fun _ _ => .inl rfl)
+
 /-! ### The induction -/
 
 mutual
@@ -328,8 +357,8 @@ theorem eval_refines (D : DateFns) : ∀ (e : Expr) (env : Env), env.WF → e.Al
   | .record kes, env, hwf, hn => by
     simp only [Expr.All] at hn
     have ih := evalKVs_refines D kes env hwf hn.2
-    simp only [eval, evaluateWith]
-    exact refines_bind ih (fun _ _ => .inl rfl)
+    rw [eval_recordLit, evaluate_recordLit]
+    exact refines_bind (evalKVs_refines_of D env _ (fun ke h => ih ke (canonKVs_subset kes ke h))) (fun _ _ => .inl rfl)
   | .call fn args, env, hwf, hn => by
     simp only [Expr.All] at hn
     simp only [eval, evaluateWith]
@@ -415,14 +444,14 @@ theorem evalList_refines (D : DateFns) : ∀ (es : List Expr) (env : Env), env.W
     intro v _
     exact refines_bind (evalList_refines D es env hwf hn.2) (fun _ _ => .inl rfl)
 theorem evalKVs_refines (D : DateFns) : ∀ (kes : List (String × Expr)) (env : Env), env.WF →
-    Expr.AllKV (nodeOK D env) kes → Refines (evalKVs kes env) (evaluateKVs D kes env)
-  | [], _, _, _ => .inl rfl
+    Expr.AllKV (nodeOK D env) kes → ∀ ke ∈ kes, Refines (eval ke.2 env) (evaluateWith D ke.2 env)
+  | [], _, _, _ => by intro ke h; cases h
   | (k, e) :: kes, env, hwf, hn => by
     simp only [Expr.AllKV] at hn
-    simp only [evalKVs, evaluateKVs]
-    apply refines_bind (eval_refines D e env hwf hn.1)
-    intro v _
-    exact refines_bind (evalKVs_refines D kes env hwf hn.2) (fun _ _ => .inl rfl)
+    intro ke h
+    rcases List.mem_cons.mp h with h | h
+    · rw [h]; exact eval_refines D e env hwf hn.1
+    · exact evalKVs_refines D kes env hwf hn.2 ke h
 theorem evalTyped_refines (D : DateFns) : ∀ (es : List Expr) (ks : List Kind) (env : Env), env.WF →
     Expr.AllL (nodeOK D env) es → RefinesT ks (evalTyped es ks env) (evaluateList D es env)
   | [], ks, _, _, _ => by
